@@ -5,6 +5,7 @@ CONSTANTS
   MaxSubs = 2
   MaxDir = 1
   RuleLists = {{}, {"r1"}, {"r1", "r2"}}
+  Decl = TRUE
   Switch = TRUE
   Odd = TRUE
   Sample = 0
